@@ -104,9 +104,6 @@ func checkC19(c *Ctx) {
 	}
 	var cmps []constCmp
 	for _, f := range decScope {
-		if byteReaders[f] {
-			continue // the one-byte reader itself compares counts, not content
-		}
 		for _, b := range f.Blocks {
 			for _, in := range b.Instrs {
 				cmp, ok := in.(*ssa.BinOp)
